@@ -872,6 +872,7 @@ class Ctx:
         self.inputs = {}         # name -> aid
         self.int_inputs = set()
         self.nn_atoms = set()
+        self.hints = {}
         self.has_ints = False
         self.pc = []             # exact z3 path condition
         self.pc_nl = False       # path condition has non-linear content
@@ -1468,9 +1469,12 @@ def explore(fn, c, max_paths=200000, wall_s=None):
             rec['feasibility'] = r
             if m is not None:
                 rec['witness'] = c.witness(m)
-                nice = c.nice_witness(None)
-                if nice:
-                    rec['nice'] = nice
+            nice = c.nice_witness(None, timeout_ms=3000)
+            if nice:
+                rec['nice'] = nice
+            if m is None and not nice and c.hints:
+                # feasibility of the path is undecided: offer the nominal values of the slice; the replay on the real package decides
+                rec['witness'] = {k: str(v) for k, v in c.hints.items() if k in c.inputs}
         c.stats['paths'] += 1
         out.append(rec)
         work.extend(c.pending)
